@@ -96,6 +96,11 @@ THEOREMS = [
     "OllamaVerif.C04.pull_size_breaks_NameInv",
     "OllamaVerif.C04.failed_create_changes_nothing_repaired",
     "OllamaVerif.C04.N4_from_pull_witness",
+    # `create ... from` with the pull inside parseFromModel (composed by the oracle, not an Op of `step`): invariant +
+    # frame for the two names it may write, whatever they are
+    "OllamaVerif.Store.createFromPull_good",
+    "OllamaVerif.C04.create_from_pull_good",
+    "OllamaVerif.C04.N4_createFromPull_witness",
     # the guard about auto-detected layers (N2): met by every `from` create, void once N2 is repaired, decidable
     "OllamaVerif.C04.apartOp_of_from",
     "OllamaVerif.C04.apartOp_of_fixKeep",
